@@ -240,7 +240,8 @@ def run(tier, seed, broken_proof=False):
     directed = [("f", "a b"), ("f", "a)"), ("f", "a|b"), ("f", "a\n,b"), ("f", "a,"), ("f", ""), ("f", "!"), ("f", "a;;b"), ("f", "(a"), ("f", "a , b ; !c , d"),
                 ("f", "!!a"), ("f", "!(a;b),c"), ("f", "Top,Bottom"), ("f", "signature"), ("f", "a/*x*/,b//y"), ("f", "a#"), ("f", "a /* open"),
                 ("q", "(a|b)}"), ("q", "(a|b),"), ("q", "(a|b)\n,(c|d)"), ("q", "(a|b),\n\n(c|d)\n"), ("q", "(a|b) (c|d)"), ("q", "(a|b|c)"), ("q", ""),
-                ("q", "(conditionals|a)"), ("q", "(a|b) // conditionals"),
+                ("q", "(conditionals|a)"), ("q", "(a|b) // conditionals"), ("q", "(a|conditionalsx1)"), ("q", "(signaturex|conditionals-y)"), ("q", "(a|b) // signature conditionals"),
+                ("b", "signature\n conditionalsx1,signatures\nconditionals\nk{\n(!conditionalsx1|signatures)\n}\n"),
                 ("b", "signature\n a,b\nconditionals\nk{\n(a|b)\n}\n garbage"), ("b", "signature\n a,b\nconditionals\nk{\n(a|b)\n} }"),
                 ("b", "signature\n a,a\nconditionals\nk{\n(a|a)\n}"), ("b", "signature\n a,Top\nconditionals\nk{\n}"), ("b", "signature\n a\nconditionals\nk{\n}\n"),
                 ("b", "signature\n a,\n b\nconditionals\nk{\n}\n"), ("b", "signature a\nconditionals\nk{\n}\n"), ("b", "signature\n a\nconditionals k{\n}\n"),
